@@ -2,6 +2,7 @@ package props
 
 import (
 	"fmt"
+	"github.com/go-kid/ioc/container/processors"
 
 	"github.com/go-kid/ioc"
 	"github.com/go-kid/ioc/app"
@@ -227,6 +228,11 @@ func (p c14) run(c *core.Ctx) {
 		}
 		zero = append(zero, world.NewDecorator(names...))
 		c.Count("closers_exposed_through_decorators", len(names))
+	}
+	if c.Rng.Intn(6) == 0 {
+		// the library's exported by-type resolver registered next to the default one: every closer is still closed once
+		zero = append(zero, processors.NewDependencyTypeAwarePostProcessors())
+		c.Count("starts_with_the_exported_by_type_resolver_registered_too", 1)
 	}
 	r := world.Build(sc, world.Options{Extra: zero})
 	world.SetZeroLog(r.Log)
